@@ -56,8 +56,18 @@ func (a *linAnalysis) summary(f *types.Func, root bool) *lsummary {
 	for i := 0; i < sig.Params().Len(); i++ {
 		bind(sig.Params().At(i))
 	}
+	savedNamed := a.named
+	a.named = nil
+	defer func() { a.named = savedNamed }()
 	if sig.Results().Len() > 0 && sig.Results().At(0).Name() != "" {
-		a.undecided("named results are not supported", fi.Decl.Pos())
+		// named results start as zero values; a bare return hands back their current values
+		for i := 0; i < sig.Results().Len(); i++ {
+			rv := sig.Results().At(i)
+			a.named = append(a.named, rv)
+			if rv.Name() != "_" {
+				st.env[rv] = a.zero(rv.Type())
+			}
+		}
 	}
 	npaths := 0
 	fr := &lframe{ret: func(st *lstate, res []*lval) {
@@ -167,6 +177,9 @@ func (a *linAnalysis) stmt(st *lstate, s ast.Stmt, fr *lframe, k func(*lstate)) 
 			})
 		})
 	case *ast.ReturnStmt:
+		if a.OnReturn != nil && a.probe == 0 {
+			a.OnReturn(a, st, a.cur.fi.Name, x)
+		}
 		if len(x.Results) == 1 {
 			if call, ok := ast.Unparen(x.Results[0]).(*ast.CallExpr); ok && a.isSummarisable(call) {
 				a.callStmt(st, call, func(s *lstate, res []*lval) { fr.ret(s, res) })
@@ -176,6 +189,15 @@ func (a *linAnalysis) stmt(st *lstate, s ast.Stmt, fr *lframe, k func(*lstate)) 
 		var res []*lval
 		for _, r := range x.Results {
 			res = append(res, a.expr(st, r))
+		}
+		if len(x.Results) == 0 {
+			for _, rv := range a.named {
+				if v, ok := st.env[rv]; ok && v != nil {
+					res = append(res, v)
+				} else {
+					res = append(res, a.freshFor(st, rv.Type()))
+				}
+			}
 		}
 		fr.ret(st, res)
 	case *ast.BranchStmt:
@@ -406,6 +428,8 @@ func (a *linAnalysis) switchStmt(st *lstate, x *ast.SwitchStmt, fr *lframe, k fu
 type lcand struct {
 	v    types.Object // integer variable assigned in the loop
 	s    types.Object // sequence variable (nil: the candidate is v >= 0)
+	mode int          // 0: see s; 2: v >= k; 3: v <= k (k: the constant value at loop entry)
+	k    int64
 	desc string
 }
 
@@ -413,6 +437,12 @@ func (a *linAnalysis) candLin(st *lstate, c lcand) (LE, bool) {
 	v := st.env[c.v]
 	if v == nil || v.kind != lkInt {
 		return LE{}, false
+	}
+	switch c.mode {
+	case 2:
+		return v.lin.sub(leConst(c.k)), true
+	case 3:
+		return leConst(c.k).sub(v.lin), true
 	}
 	if c.s == nil {
 		return v.lin, true
@@ -506,6 +536,11 @@ func (a *linAnalysis) loop(st *lstate, cond ast.Expr, post ast.Stmt, body *ast.B
 	}
 	sortObjs(ints)
 	for _, v := range ints {
+		if ev := st.env[v]; ev != nil && ev.kind == lkInt && ev.lin.isConst() {
+			// a counter never falls below / rises above its initial constant
+			cands = append(cands, lcand{v: v, mode: 2, k: ev.lin.k, desc: fmt.Sprintf("%s >= %d", v.Name(), ev.lin.k)})
+			cands = append(cands, lcand{v: v, mode: 3, k: ev.lin.k, desc: fmt.Sprintf("%s <= %d", v.Name(), ev.lin.k)})
+		}
 		cands = append(cands, lcand{v: v, desc: v.Name() + " >= 0"})
 		for _, s := range seqs {
 			cands = append(cands, lcand{v: v, s: s, desc: v.Name() + " <= len(" + s.Name() + ")"})
@@ -646,9 +681,26 @@ func (a *linAnalysis) loop(st *lstate, cond ast.Expr, post ast.Stmt, body *ast.B
 			}
 		}
 	}
+	entryVals := map[types.Object]*lval{}
+	stepOne := map[types.Object]bool{}
+	for _, v := range ints {
+		entryVals[v] = st.env[v]
+		stepOne[v] = true
+	}
 	backEdges := 0
 	checkRank := func(s *lstate) {
 		backEdges++
+		for _, v := range ints {
+			hv, cv := h.env[v], s.env[v]
+			if hv == nil || cv == nil || hv.kind != lkInt || cv.kind != lkInt {
+				stepOne[v] = false
+				continue
+			}
+			d := cv.lin.sub(hv.lin).sub(leConst(1))
+			if !a.prove(s.cons, d) || !a.prove(s.cons, d.scale(-1)) {
+				stepOne[v] = false
+			}
+		}
 		for _, r := range ranks {
 			if !r.ok {
 				continue
@@ -672,6 +724,13 @@ func (a *linAnalysis) loop(st *lstate, cond ast.Expr, post ast.Stmt, body *ast.B
 	nfr.cnt = back
 	enter(h, func(b *lstate) { a.stmts(b, body.List, &nfr, back) }, k)
 	if rng == nil && a.probe == 0 {
+		for _, v := range ints {
+			lf := LoopFact{Fn: a.cur.fi.Name, Pos: body.Pos(), Var: v, StepOne: stepOne[v] && backEdges > 0, BackEdges: backEdges}
+			if ev := entryVals[v]; ev != nil && ev.kind == lkInt && ev.lin.isConst() {
+				lf.EntryOK, lf.Entry = true, ev.lin.k
+			}
+			a.Loops = append(a.Loops, lf)
+		}
 		proved, by := backEdges == 0, "no path returns to the loop head"
 		for _, r := range ranks {
 			if r.ok && !proved {
@@ -1306,6 +1365,20 @@ func (a *linAnalysis) callExpr(st *lstate, call *ast.CallExpr) *lval {
 	}
 	callee := a.calleeOf(call)
 	rt := a.info.TypeOf(call)
+	if a.OnCall != nil && a.probe == 0 {
+		if _, isB := callee.(*types.Builtin); !isB {
+			save := len(a.Obls)
+			var args []*lval
+			pr := a.probe
+			a.probe++ // evaluating the arguments for the observer must not record obligations twice
+			for _, arg := range call.Args {
+				args = append(args, a.expr(st, arg))
+			}
+			a.probe = pr
+			_ = save
+			a.OnCall(a, st, a.cur.fi.Name, call, callee, args)
+		}
+	}
 	if b, ok := callee.(*types.Builtin); ok {
 		switch b.Name() {
 		case "len":
